@@ -119,3 +119,145 @@ def run(ctx: Context) -> None:
     seen: set = set()
     report_issues(ctx, an, "C08", seen)
     ctx.require_floor("typing obligations", n, 7)
+    ctx.rule("C08b", "every update of the mixed-Fock density matrix has a Hermiticity-preserving form: K rho K^dagger with the same K on both sides (matrix product or einsum), an elementwise factor exp(i (g(ket) - g(bra))), or the explicit mirror fill value.conj().T at the swapped index; the attenuator's weights are symmetric under ket <-> bra")
+    clause_b(ctx, idx)
+
+
+# ================================================================================================ (b)
+
+GEN = "piquasso._simulators.fock.general.simulation_steps"
+FOCKSTEPS = "piquasso._simulators.fock.simulation_steps"
+
+
+def _adjoint_of(right: ast.AST, left: ast.AST) -> bool:
+    """right is left^T / left^dagger: left.T, left.transpose(), left.conj().T, left.T.conj(), np.conj(left).T ..."""
+    txt = norm(right).replace(" ", "")
+    l = norm(left).replace(" ", "")
+    forms = {f"{l}.T", f"{l}.transpose()", f"{l}.conj().T", f"{l}.T.conj()", f"{l}.conjugate().T", f"{l}.T.conjugate()",
+             f"{l}.conj().transpose()", f"{l}.transpose().conj()", f"np.conj({l}).T", f"np.conj({l}.T)"}
+    return txt in forms
+
+
+def clause_b(ctx: Context, idx) -> None:
+    import sympy as sp
+    m = idx.module(GEN)
+    n_sites = 0
+
+    def site(fn, node, kind, ok, why=""):
+        nonlocal n_sites
+        n_sites += 1
+        key = f"{fn.qualname}|{kind}"
+        ctx.obligation("C08b", key, ok, f"{ctx.relpath(fn.file)}:{node.lineno}")
+        if not ok:
+            ctx.violation("C08b", key, fn.file, node.lineno,
+                          f"{fn.name}: {why}; a linear map rho -> A rho B preserves Hermiticity (and positivity) of every density matrix only for "
+                          f"B = A^dagger, so the mixed-Fock state stops being a physical state", norm(node).split("\n")[0][:100])
+
+    for fn in list(m.functions.values()):
+        for node in ast.walk(fn.node):
+            # (i) A @ rho @ B
+            if isinstance(node, ast.BinOp) and isinstance(node.op, ast.MatMult) and isinstance(node.left, ast.BinOp) and isinstance(node.left.op, ast.MatMult) \
+                    and "density_matrix" in norm(node.left.right):
+                A, B = node.left.left, node.right
+                site(fn, node, "congruence-matmul", _adjoint_of(B, A), f"`{norm(node)[:70]}` multiplies the density matrix by `{norm(A)}` from the left and `{norm(B)}` from the right, which is not its adjoint")
+            # (ii) einsum("ij,jk,kl->il", X[k], rho[idx], X[b].T.conj())
+            if isinstance(node, ast.Call) and (norm(node.func).split(".")[-1] == "einsum") and len(node.args) == 4 and isinstance(node.args[0], ast.Constant) \
+                    and "density_matrix" in norm(node.args[2]):
+                spec = node.args[0].value.replace(" ", "")
+                A, B = node.args[1], node.args[3]
+                # same base object on both sides (indexed by ket / bra), right one conjugate-transposed
+                def base(e):
+                    t = norm(e)
+                    for suf in (".T.conj()", ".conj().T", ".T", ".conj()", ".transpose()"):
+                        t = t.replace(suf, "")
+                    return t.split("[")[0].replace("_bra", "").replace("_ket", "")
+                conj_t = any(x in norm(B) for x in (".T.conj()", ".conj().T"))
+                tB = norm(B)
+                for suf in (".T.conj()", ".conj().T"):
+                    tB = tB.replace(suf, "")
+                roles = "ket" in norm(A) and "bra" in tB and norm(A).replace("ket", "#") == tB.replace("bra", "#")
+                ok = spec == "ij,jk,kl->il" and base(A) == base(B) and conj_t and roles and not any(x in norm(A) for x in (".T", ".conj()"))
+                site(fn, node, "congruence-einsum", ok, f"`{norm(node)[:80]}` does not contract K rho K^dagger with the same K on both sides")
+            # (iii) elementwise factor
+            if isinstance(node, ast.Assign) and len(node.targets) == 1 and isinstance(node.targets[0], ast.Name) and node.targets[0].id == "coefficient" \
+                    and isinstance(node.value, ast.Call) and norm(node.value.func).split(".")[-1] == "exp" \
+                    and any("dual_basis" in norm(x) for x in ast.walk(fn.node) if isinstance(x, ast.For)):
+                arg = node.value.args[0]
+                syms = {}
+                local_defs = {}
+                for a_ in ast.walk(fn.node):
+                    if isinstance(a_, ast.Assign) and len(a_.targets) == 1 and isinstance(a_.targets[0], ast.Name) and isinstance(a_.value, ast.Subscript) \
+                            and norm(a_.value.value) in ("basis", "dual_basis"):
+                        local_defs[a_.targets[0].id] = a_.value
+                def tr(e, swap):
+                    if isinstance(e, ast.Constant):
+                        return sp.I if isinstance(e.value, complex) and e.value == 1j else sp.sympify(e.value)
+                    if isinstance(e, ast.Name) and e.id in local_defs:
+                        return tr(local_defs[e.id], swap)
+                    if isinstance(e, ast.Name):
+                        return syms.setdefault(e.id, sp.Symbol(e.id, real=True))
+                    if isinstance(e, ast.Subscript):
+                        t = norm(e)
+                        if swap:
+                            t = t.replace("dual_basis", "\0").replace("basis", "dual_basis").replace("\0", "basis")
+                        return syms.setdefault(t, sp.Symbol(t.replace("[", "_").replace("]", "").replace(" ", ""), real=True))
+                    if isinstance(e, ast.BinOp):
+                        a, b = tr(e.left, swap), tr(e.right, swap)
+                        ops = {ast.Add: lambda: a + b, ast.Sub: lambda: a - b, ast.Mult: lambda: a * b, ast.Pow: lambda: a ** b, ast.Div: lambda: a / b}
+                        f = ops.get(type(e.op))
+                        if f is None:
+                            raise AnalysisError(f"C08b: operator in `{norm(e)[:40]}` (undecided)")
+                        return f()
+                    if isinstance(e, ast.UnaryOp) and isinstance(e.op, ast.USub):
+                        return -tr(e.operand, swap)
+                    raise AnalysisError(f"C08b: `{norm(e)[:40]}` is outside the fragment read for elementwise factors (undecided)")
+                e1, e2 = tr(arg, False), tr(arg, True)
+                # exp(z) with z purely imaginary and antisymmetric under ket <-> bra:  conj(exp(z(ket,bra))) = exp(z(bra,ket))
+                ok = sp.simplify(sp.conjugate(e1) - e2) == 0
+                site(fn, node, "phase-factor-antisymmetric", ok,
+                     f"the elementwise factor exp({norm(arg)[:60]}) is not of the form exp(i (g(ket) - g(bra))) (its conjugate is not its value at the swapped pair)")
+            # (iv) mirror fill
+            if isinstance(node, ast.Assign) and isinstance(node.targets[0], ast.Subscript) and "new_density_matrix" in norm(node.targets[0]) \
+                    and isinstance(node.value, ast.Attribute) and node.value.attr == "T" and "conj" in norm(node.value):
+                site(fn, node, "mirror-fill-conjugate-transpose", True)
+    # the attenuator: weights symmetric under n <-> m
+    fs = idx.module(FOCKSTEPS)
+    att = fs.functions.get("attenuator")
+    if att is None:
+        raise AnalysisError("anchor vanished: fock attenuator step")
+    upd = [x for x in ast.walk(att.node) if isinstance(x, ast.AugAssign) and "new_density_matrix" in norm(x.target)]
+    common = [x for x in ast.walk(att.node) if isinstance(x, ast.Assign) and norm(x.targets[0]) == "common_term"]
+    if len(upd) != 1 or len(common) != 1:
+        raise AnalysisError("C08b: the attenuator no longer has one `new_density_matrix[...] += common_term * (...)` update (undecided)")
+    n_, m_, k_, th = sp.Symbol("n", integer=True, nonnegative=True), sp.Symbol("m", integer=True, nonnegative=True), sp.Symbol("k", integer=True, nonnegative=True), sp.Symbol("theta", real=True)
+
+    def w(e, swap):
+        if isinstance(e, ast.Constant):
+            return sp.sympify(e.value)
+        if isinstance(e, ast.Name):
+            if e.id in ("n", "m"):
+                return {("n", False): n_, ("m", False): m_, ("n", True): m_, ("m", True): n_}[(e.id, swap)]
+            if e.id == "k":
+                return k_
+            if e.id == "theta":
+                return th
+            if e.id == "coefficient":
+                return sp.Integer(1)
+            if e.id == "common_term":
+                return w(common[0].value, swap)
+            raise AnalysisError(f"C08b: free name `{e.id}` in the attenuator weight (undecided)")
+        if isinstance(e, ast.BinOp):
+            a, b = w(e.left, swap), w(e.right, swap)
+            return {ast.Add: lambda: a + b, ast.Sub: lambda: a - b, ast.Mult: lambda: a * b, ast.Pow: lambda: a ** b, ast.Div: lambda: a / b}[type(e.op)]()
+        if isinstance(e, ast.Call):
+            f = norm(e.func).split(".")[-1]
+            args = [w(a, swap) for a in e.args]
+            table = {"cos": sp.cos, "sin": sp.sin, "tan": sp.tan, "sqrt": sp.sqrt, "comb": sp.binomial, "max": sp.Max, "min": sp.Min, "exp": sp.exp}
+            if f in table:
+                return table[f](*args)
+        raise AnalysisError(f"C08b: `{norm(e)[:50]}` is outside the fragment read for the attenuator weight (undecided)")
+
+    w1, w2 = w(upd[0].value, False), w(upd[0].value, True)
+    ok = sp.simplify(w1 - sp.conjugate(w2)) == 0
+    site(att, upd[0], "attenuator-weight-hermitian", ok, f"the weight {w1} of rho[n, m] is not the conjugate of the weight of rho[m, n]")
+    ctx.require_floor("density-matrix update sites classified", n_sites, 8)
